@@ -16,6 +16,12 @@ def scenario(rng, i):
     for d in rng.sample(dirs, min(len(dirs), rng.choice([0, 1, 2]))):
         steps.append({"op": "create", "root": d, "fmts": gen.gen_fmts(rng)})
     steps.append(gen.gen_create(rng, cur, nested_ok=False, sf_ok=False, patterns=PATTERNS if i % 3 == 0 else None))
+    if i % 4 == 1:
+        # leftovers of an interrupted run in the ascmhl folders (root and nested)
+        steps.append({"op": "leftover", "hist": ""})
+        for st0 in list(steps):
+            if st0["op"] == "create" and st0.get("root"):
+                steps.append({"op": "leftover", "hist": st0["root"]})
     for _ in range(rng.choice([3, 5, 8])):
         r = rng.random()
         files = gen.all_files(cur)
